@@ -109,7 +109,18 @@ func followUpChain(g *gen.G, variant int) ([]*gen.Change, []gen.Plant, string) {
 			plants = append(plants, gen.Plant{Kind: "expr", Text: fmt.Sprintf(format, n[0], n[1])})
 		}
 	}
-	switch variant % 8 {
+	switch variant % 9 {
+	case 8:
+		// an earlier change reproduces one elided run in two places; a later change matches an element of that run as
+		// a whole: both copies are sites
+		for i := 0; i < 1+g.R.Intn(2); i++ {
+			n := names[g.R.Intn(len(names))]
+			plants = append(plants, gen.Plant{Kind: "stmts", Text: fmt.Sprintf("dupLog(\"m\", oldSub(%s), %s)", n[0], n[1])})
+		}
+		return []*gen.Change{
+			{Kind: "stmts", Schema: "c01-chain-1", Lines: []gen.Line{gen.L('-', "dupLog(‹1:args›)"), gen.L('+', "dupLog(‹1:args›)"), gen.L('+', "dupAudit(‹1:args›)")}},
+			mk("c01-chain-2", []gen.MetaVar{q}, "oldSub(«cq»)", "newSince(«cq»)"),
+		}, plants, "matches-an-element-of-a-run-reproduced-twice"
 	case 7:
 		// ... and matches an element that an earlier change generated behind an elision, also where the elided run
 		// was empty
